@@ -379,7 +379,9 @@ class LateralSystem:
         st = St()
         n = self.n
         kw = {}
-        if self.ctor_init:
+        if self.ctor_init == "inplace":  # initialisers that fill their argument in place and hand it back (torch.nn.init style)
+            kw = dict(weight_init=lambda w: nn.init.constant_(w, 3.0), delay_init=lambda d: nn.init.constant_(d, 2.0))
+        elif self.ctor_init:
             kw = dict(weight_init=lambda w: torch.ones_like(w) * 3, delay_init=lambda d: torch.ones_like(d) * 2)
         st.c = LinearLateral((n,), DT, synapse=syn("delta"), delay=2.0, bias=False, batch_size=1, **kw)
         st.c.updater = st.c.defaultupdater()
@@ -393,7 +395,7 @@ class LateralSystem:
 
     def mutations(self, st):
         for prm in ("weight", "delay"):
-            for kind in ("tensor", "param", "neg"):
+            for kind in ("tensor", "param", "neg", "own", "iadd"):
                 yield ("assign", prm, kind)
             for sign in ("pos", "neg"):
                 yield ("update", prm, sign)
@@ -406,7 +408,12 @@ class LateralSystem:
         if op[0] == "assign":
             _, prm, kind = op
             v = base if kind != "neg" else -base
-            setattr(c, prm, nn.Parameter(v, requires_grad=False) if kind == "param" else v)
+            if kind == "own":  # the connection's own parameter, changed in place, handed back to the setter
+                setattr(c, prm, getattr(c, prm).add_(1.0))
+            elif kind == "iadd":  # augmented assignment on the property
+                setattr(c, prm, getattr(c, prm).__iadd__(1.0))
+            else:
+                setattr(c, prm, nn.Parameter(v, requires_grad=False) if kind == "param" else v)
         else:
             _, prm, sign = op
             if sign == "pos":
@@ -476,7 +483,7 @@ def run(rep):
             jobs.append((conv_shard, (H, Wd, rep.tier)))
     depth = 2 if quick else 3
     for n in (2, 3):
-        for ci in (False, True):
+        for ci in (False, True, "inplace"):
             jobs.append((lateral_shard, (n, ci, depth)))
     tally = run_shards(jobs, seed=rep.seed)
     rep.tally.merge(tally)
